@@ -24,7 +24,8 @@ CFG = {
     "partial": {},
     "n": {"quick": 6000, "thorough": 1000000},
     "exhaustive": {"quick": False, "thorough": True},
-    "rule": "corpus (the crate's own 9 test expressions + hand-built backtracking/lookahead/non-ASCII cases) first; "
+    "rule": "LONG RUNS (follow-up to seed C18_11): a Star whose operand matches hundreds / thousands of times in a row - run lengths around 127/128/129, 255/256/257, 1000, 4096 and the 64 Ki boundary (three cases), operands a, ab, (a|b), in five contexts (alone, x* y, (x* !x)|y, (x* y)*, !(x* y)), each run followed by nothing / the terminator / a byte nothing matches; buffers written as `<n>*<hex>` segments expanded by the harness and the driver alike; "
+            "corpus (the crate's own 9 test expressions + hand-built backtracking/lookahead/non-ASCII cases) first; "
             "exhaustive: every expression of depth <= 1 (quick) / <= 2 (thorough; 1515 expressions, those with a non-consuming star "
             "body excluded as the statement does) over the three guarded byte parsers a,b,c x every string of length <= 5 (quick) / "
             "<= 6 (thorough, 1093 strings) over {a,b,c} at cursor 0, and depth <= 1 x strings <= 3 behind a 2-byte prefix at cursor 2; "
